@@ -183,12 +183,39 @@ def fsMain (dir : String) : IO Unit := do
     | none => b
   let hist ← IO.FS.lines (dir ++ "/histories.txt")
   let mut fs : Build.FS := { grammar := none, dest := none, pfx := [] }
+  let mut fs2 : Build.FS := { grammar := none, dest := none, pfx := [] }   -- second file of mode `dir2`
   let mut id := ""
   let mut kk := 0
   let mut format := false
   for l in hist do
     match l.splitOn " " with
-    | ["H", i, m] => id := i; kk := 0; format := (m == "fmt"); fs := { grammar := none, dest := none, pfx := [] }
+    | ["H", i, m] =>
+      id := i; kk := 0; format := (m == "fmt"); fs := { grammar := none, dest := none, pfx := [] }
+      fs2 := { grammar := none, dest := none, pfx := [] }
+    | ["G2", hx] => fs2 := { fs2 with grammar := (if hx == "-" then some [] else unhex hx.toList) }
+    | ["D2"] => fs2 := { fs2 with dest := none }
+    | ["R", ord] =>
+      -- mode `dir2`: the walk over both files in the order the operating system listed them (reported by the harness)
+      let fs2p := { fs2 with pfx := fs.pfx }
+      let r := if ord == "10" then (Build.runDir k compile [fs2p, fs]).reverse else Build.runDir k compile [fs, fs2p]
+      let res := match Build.dirResult r with | .ok _ => "OK" | .err => "ERR" | .none => "?"
+      let mut cols := ""
+      let mut fresh := ""
+      for e in r do
+        let d := match e.1.dest with | some b => hex16 (fnv64 b) | none => "NONE"
+        let w := match e.2 with | .ok true => "1" | _ => "0"
+        cols := cols ++ s!" {d} {w}"
+        let fr := match e.1.grammar with
+          | some g => (match compile g with
+            | some code => hex16 (fnv64 (Build.output k g e.1.pfx code))
+            | none => "UNCOMPILABLE")
+          | none => "ABSENT"
+        fresh := fresh ++ s!" {fr}"
+      match r with
+      | [e0, e1] => fs := e0.1; fs2 := e1.1
+      | _ => pure ()
+      IO.println s!"{id} {kk} {res}{cols}{fresh}"
+      kk := kk + 1
     | ["G", hx] =>
       let t := if hx == "NONE" then none else (if hx == "-" then some [] else unhex hx.toList)
       fs := (Build.step k compile fs (.editGrammar t)).1
